@@ -212,7 +212,7 @@ pub fn gen_case(t: &mut Tape, excl: &[usize]) -> Case {
     }
     if dflt_pat {
         if dflt_inline {
-            src.push_str(*t.pick(&["    #[inline]\n", "    #[cold]\n", "    #[inline(always)]\n"]));
+            src.push_str(*t.pick(&["    #[inline]\n", "    #[cold]\n", "    #[inline(always)]\n", "    #[cfg_attr(all(), inline)]\n", "    #[cfg_attr(not(test), cold, doc = \"x\")]\n", "    #[cfg_attr(all(), cfg_attr(all(), inline(always)))]\n"]));
         }
         src.push_str("    fn combine(&self, (a, b): (i32, i32), N(c): N, mut d: i32) -> String { d += 1; format!(\"DEFAULT|{},{},{},{}\", a, b, c, d) }\n");
     }
